@@ -45,6 +45,7 @@ fn main() {
         "C11" => props::c11::main(&args),
         "C12" => props::c12::main(&args),
         "C13" => props::c13::main(&args),
+        "C14" => props::c14::main(&args),
         "C16" => props::c16::main(&args),
         "C20" => props::c20::main(&args),
         "C18" => props::c18::main(&args),
